@@ -113,6 +113,13 @@ let parse_response_case (toks : string list) : response * string list =
              let d = data_of_tok arg in
              BKnown (n_of_int (Bytes.length d), true, plain_reader (nlist_of_bytes d))
            | "file" | "tmp" -> let (n, d) = declared_data arg in BKnown (n, true, plain_reader d)
+           | "fileshrink" ->
+             (* cut to <keep> bytes before the body is opened: the same as a file that short *)
+             (match String.split_on_char ':' arg with
+              | [n; d; keep] ->
+                let data = nlist_of_bytes (data_of_tok d) in
+                BKnown (n_of_decimal n, true, plain_reader (List.filteri (fun i _ -> i < int_of_string keep) data))
+              | _ -> failwith "bad fileshrink body")
            | "filemissing" | "tmpmissing" -> BKnown (n_of_decimal arg, false, plain_reader [])
            | "filedir" -> BKnown (n_of_decimal arg, true, { r_data = []; r_sched = [RFail] })
            | "es" ->
